@@ -89,10 +89,12 @@ Definition is_segmentation (chunks : list (list (N * N))) (rows : list (N * N)) 
 Definition resolve (m : Manifest) (row_id : N) : option N :=
   match find (fun p => fst p =? row_id) (live_rows m) with Some p => Some (snd p) | None => None end.
 
-(* Known finding (C18) rowid_index_overlapping_ranges: the live row ids, read in address order, are not strictly
-   increasing (an update / merge_insert carried an id into a later fragment).  Then chunk ranges can overlap and
-   RowIdIndex::new hits `debug_assert_eq!(.., "Wrong range ...")` (F18): take_rows panics. *)
-Definition Known_C18_rowid_index_overlapping_ranges (m : Manifest) : bool :=
+(* The live row ids, read in address order, are not strictly increasing (an update / merge_insert carried an id
+   into a later fragment).  Then chunk ranges overlap; RowIdIndex::new MERGES overlapping chunks before the range
+   lookup (that merging is property C34's model; the over-strict "Wrong range" debug assertion on it, finding
+   F18, was repaired by repo commit ac0e2db).  The unmerged lookup [index_get] modelled here is only claimed for
+   monotone ids; with overlaps it must be applied to the merged chunk (see the regression examples). *)
+Definition ids_non_monotone (m : Manifest) : bool :=
   negb (strict_sorted_n (live_ids m)).
 
 (* Known finding (C18) stable_flag_dropped_on_empty_table: a commit made with
